@@ -15,8 +15,8 @@ TABLE = {
                         "source.replace_leaves(m) abstracted as the function replace_leaves(source, m) the per-class obligations define"],
     },
     "C08": {
-        "mods": ["contracts.glue"], "keys": ["PandasModel._select_columns_step", "PandasModel._rename_columns_step", "PolarsModel._table_step", "PandasModel._table_step"],
-        "explanation": ("hybrid: PROVED (pyvc) -- the column-shaping glue hands the frame library exactly the declared columns: Pandas _table_step and Polars _table_step ALWAYS narrow and order the "
+        "mods": ["contracts.glue"], "keys": ["PandasModel._select_columns_step", "PandasModel._rename_columns_step", "PolarsModel._table_step", "PandasModel._table_step", "SQLModel.select_rows_to_near_sql"],
+        "explanation": ("hybrid: PROVED (pyvc) -- SQLModel.select_rows_to_near_sql selects exactly the requested columns (all of the step's columns by default), each passed through unchanged, and filters by the node's own expression (suffix WHERE indent+sql(expr)); the column-shaping glue hands the frame library exactly the declared columns: Pandas _table_step and Polars _table_step ALWAYS narrow and order the "
                         "input to op.column_names (eager or lazy, extra or permuted input columns), _select_columns_step selects column_selection in that order, _rename_columns_step renames with the "
                         "node's mapping; BOUNDED -- declared columns = returned columns at every node of every enumerated pipeline on Pandas, Polars and SQLite (extend / project / join / convert_records "
                         "steps and all of the SQL generation are not under contract)"),
